@@ -19,7 +19,7 @@ Probe == LET c == Cc IN
   ELSE {[k |-> "int", v |-> x] : x \in {CMin(c, u) - 1, CMin(c, u), (CMin(c, u) + CMax(c, u)) \div 2, CMax(c, u), CMax(c, u) + 1}}
 Next == \E a \in Probe : LET r == SetRes(Cc, u, strict, val, a) IN
            /\ val' \in r.vals /\ UNCHANGED <<t, i, u, strict>>
-           /\ Assert(r.out \notin {"ok", "any"} => r.vals = {val}, "rejected assignment must leave the value")
+           /\ Assert(r.out \notin {"ok", "not-cve"} => r.vals = {val}, "rejected assignment must leave the value")
 StrictInDomain == (strict /\ Cc.kind \in RangeKinds) => InRange(Cc, u, val)
 EnumInDomain == Cc.kind = "enum" => val \in MemberValues(Cc)
 Encoding == (strict /\ val = Cc.default) => (Bijective(Cc, u) /\ (CMax(Cc, u) - CMin(Cc, u) <= 600 => Injective(Cc, u)))
